@@ -32,8 +32,10 @@ BagReq(st) == [k \in {r.key : r \in st.reqs} |-> Cardinality({r \in st.reqs : r.
 
 Init == l = 1 /\ ctx = [id |-> -1, begin |-> 0, active |-> FALSE, blockons |-> 0] /\ S = {}
 
+\* (runs in which the provider answers a request in two stages - modes "fifo2", "lifo2",
+\* "rand2" of the cancel plans - are not followed: AsyncCore has one completion per request)
 Begin == /\ E("begin")
-         /\ ctx' = [id |-> Rec[l].id, begin |-> l, active |-> Rec[l].cfg.mode # "sync" /\ Rec[l].fresh, blockons |-> 0]
+         /\ ctx' = [id |-> Rec[l].id, begin |-> l, active |-> Rec[l].cfg.mode \in {"fifo", "lifo", "rand", "prefix"} /\ Rec[l].fresh, blockons |-> 0]
          /\ S' = {}
          /\ PrintT("BEGIN|" \o ToString(Rec[l].id) \o "|" \o ToString(Rec[l].k) \o "|" \o Rec[l].profile)
 
